@@ -54,6 +54,8 @@ type storeOp struct {
 	gguf   int    // content id (blob, create)
 	extra  int    // variant selector (system/template/params overrides)
 	stream bool
+
+	dashDigest bool // create: name the uploaded file as sha256-<hex> instead of sha256:<hex>
 }
 
 func (o storeOp) String() string {
@@ -146,6 +148,7 @@ func drawStoreOp(existing []string, allowRestart bool) storeOp {
 		}
 	case k < 6:
 		op.kind, op.name, op.gguf, op.extra = "create", drawOpName(), d("op-gguf", 4), d("op-variant", 8)
+		op.dashDigest = d("op-dash-digest", 4) == 0
 		if d("op-dst-existing", 4) == 0 {
 			op.name = pickExisting()
 		}
@@ -223,7 +226,13 @@ func (w *storeWorld) doOp(ctx context.Context, op storeOp) apiResult {
 		if r := w.call(ctx, "POST", "/api/blobs/"+sha256Digest(b), b); !r.ok() {
 			return r
 		}
-		req := map[string]any{"model": op.name, "files": map[string]string{"model.gguf": sha256Digest(b)}}
+		dig := sha256Digest(b)
+		if op.dashDigest {
+			// both spellings of a digest are accepted wherever one is expected
+			dig = strings.Replace(dig, ":", "-", 1)
+			verifsim.Probe("create_with_dash_digest")
+		}
+		req := map[string]any{"model": op.name, "files": map[string]string{"model.gguf": dig}}
 		if !op.stream {
 			req["stream"] = false
 		}
